@@ -372,6 +372,24 @@ func raceViolation(sc *Scenario, lines []string) (*Violation, bool) {
 	return &Violation{sc.Prop, "data-race", sig, "ThreadSanitizer: " + strings.Join(lines, "\n")}, false
 }
 
+// sortedInts returns the keys of an int-keyed map in increasing order (oracles must not
+// depend on Go's map iteration order).
+func sortedInts(m interface{}) []int {
+	var out []int
+	switch mm := m.(type) {
+	case map[int]int:
+		for k := range mm {
+			out = append(out, k)
+		}
+	case map[int]bool:
+		for k := range mm {
+			out = append(out, k)
+		}
+	}
+	sort.Ints(out)
+	return out
+}
+
 func fatal2(f string, a ...interface{}) {
 	fmt.Fprintf(os.Stderr, "simrun: machinery error: "+f+"\n", a...)
 	os.Exit(2)
